@@ -115,15 +115,25 @@ def _prov_nodes(v, seen=None):
 
 
 def _name_keyed_use(v):
-    """A values()/items()/keys() call on an element of a Table/RecordBatch.to_pylist() result."""
+    """A values()/items()/keys()/[name] access on a name-keyed mapping derived from a Table/RecordBatch:
+    an element of to_pylist(), or the result of to_pydict()."""
     for x in _prov_nodes(v):
-        if isinstance(x, Sym) and x.origin and x.origin[0] == "method" and x.origin[2] in ("values", "items", "keys"):
+        if not (isinstance(x, Sym) and x.origin):
+            continue
+        recv = None
+        if x.origin[0] == "method" and x.origin[2] in ("values", "items", "keys", "get"):
             recv = x.origin[1]
-            for y in _prov_nodes(recv):
-                if isinstance(y, Sym) and y.origin and y.origin[0] == "method" and y.origin[2] == "to_pylist":
-                    chain = tagof(y.origin[1])
-                    if "column" not in chain:
-                        return x
+        elif x.origin[0] == "index":
+            recv = x.origin[1]
+        if recv is None:
+            continue
+        for y in _prov_nodes(recv):
+            if isinstance(y, Sym) and y.origin and y.origin[0] == "method" and y.origin[2] in ("to_pylist", "to_pydict"):
+                chain = tagof(y.origin[1])
+                if "column" not in chain:
+                    if y.origin[2] == "to_pydict" and y is not recv and x.origin[0] == "index":
+                        continue
+                    return x
     return None
 
 
